@@ -1007,3 +1007,12 @@ b('C01', 'composed_filter_as_match', 'src/par/par_flatmap_fil.rs', "let composed
 m('C05', 'collect_x_filters_by_retain', 'src/core/map_fil_col_x.rs', "collected.extend(chunk.map(&map).filter(&filter));", "collected.extend(chunk.map(&map));\n                collected.retain(filter);", 'C05-STAGEUSE')
 m('C03', 'reduce_terminal_rebrackets_operator', 'src/par/par_map.rs', "        map_fil_red(params, iter, map, no_filter, reduce)", "        map_fil_red(params, iter, map, no_filter, move |a, b| reduce(b, a))", 'C03-OPARG')
 b('C03', 'reduce_terminal_operator_by_name', 'src/par/par_map.rs', "        map_fil_red(params, iter, map, no_filter, reduce)", "        let operator = reduce;\n        map_fil_red(params, iter, map, no_filter, move |a, b| operator(a, b))")
+m('C05', 'option_has_value_matches_none', 'src/par/fallible.rs', """    fn has_value(&self) -> bool {
+        self.is_some()""", """    fn has_value(&self) -> bool {
+        matches!(self, None)""", 'C05-FALLIBLE')
+b('C05', 'option_has_value_matches_some', 'src/par/fallible.rs', """    fn has_value(&self) -> bool {
+        self.is_some()""", """    fn has_value(&self) -> bool {
+        matches!(self, Some(_))""")
+m('C05', 'result_has_value_matches_err', 'src/par/fallible.rs', """    fn has_value(&self) -> bool {
+        self.is_ok()""", """    fn has_value(&self) -> bool {
+        matches!(self, Err(_))""", 'C05-FALLIBLE')
